@@ -27,6 +27,8 @@ import capture
 import pair
 from vlib import Ctx, CorrResult, OracleResult, Failure, Disagreement, Hist
 
+from props import _c05_extra as X
+
 PROPERTY = 'C05'
 MANIFEST = {
     'text': 'Lean 4 theorems over EVERY finite sequence of authentication requests (any users; methods none, '
@@ -87,6 +89,7 @@ def translate(ctx: Ctx) -> Dict[str, Any]:
             resets_begun = i_reset is not None and i_reload is not None and i_reset < i_reload
     if 'create_task' not in req_src or '_finish_userauth' not in req_src:
         raise T.Untranslatable('_process_userauth_request no longer hands over to _finish_userauth')
+    quirks = _translate_quirks(tree, req)
     out = T.header('C05', ['asyncssh/connection.py (_process_userauth_request, _finish_userauth)'])
     out += 'namespace AsyncsshModel.Gen.C05\n\n'
     out += f'/-- a new USERAUTH_REQUEST cancels the auth object in progress -/\ndef abortsPrevious : Bool := {T.lean_bool(aborts)}\n'
@@ -94,10 +97,70 @@ def translate(ctx: Ctx) -> Dict[str, Any]:
     out += f'/-- how many times _finish_userauth re-checks that its request is still the latest -/\ndef staleChecks : Nat := {stale}\n'
     out += f'/-- the task of a superseded request is cancelled -/\ndef cancelsSuperseded : Bool := {T.lean_bool(cancels_task)}\n'
     out += f'/-- `_auth_begun_username` is cleared before the configuration is reloaded for a request -/\ndef resetsBegunOnReload : Bool := {T.lean_bool(resets_begun)}\n'
+    for name, doc in (('trustedKeysPerRequest', '`_match_known_hosts` rebuilds the trusted host keys for the host it is called for'),
+                      ('hostUserAskedValidatedHost', '`validate_host_based_user` is passed the host the key was validated for'),
+                      ('infoResponseNeedsRequest', 'a keyboard-interactive INFO_RESPONSE is refused unless an INFO_REQUEST is outstanding'),
+                      ('keyOptionsResetPerRequest', 'key and certificate options are forgotten when a new USERAUTH_REQUEST arrives')):
+        out += f'/-- {doc} -/\ndef {name} : Bool := {T.lean_bool(quirks[name])}\n'
     out += '\nend AsyncsshModel.Gen.C05\n'
     changed = vlib.write_if_changed(vlib.module_path('AsyncsshModel.Gen.C05'), out)
-    return {'gen_file': 'Gen/C05.lean', 'changed': changed, 'abortsPrevious': aborts, 'beginTestIsBegun': begin_by_begun and marks_begun,
+    info = {'gen_file': 'Gen/C05.lean', 'changed': changed, 'abortsPrevious': aborts, 'beginTestIsBegun': begin_by_begun and marks_begun,
             'staleChecks': stale, 'cancelsSuperseded': cancels_task, 'resetsBegunOnReload': resets_begun}
+    info.update(quirks)
+    return info
+
+
+def _translate_quirks(tree: Any, req: Any) -> Dict[str, bool]:
+    """the four source disciplines behind Gen.C05.trustedKeysPerRequest .. keyOptionsResetPerRequest"""
+    import ast
+    import translate as T
+
+    def is_self_attr(n: Any, name: Optional[str] = None) -> bool:
+        return isinstance(n, ast.Attribute) and isinstance(n.value, ast.Name) and n.value.id == 'self' and \
+            (name is None or n.attr == name)
+
+    # (1) _match_known_hosts assigns a new set to self._trusted_host_keys (before: only .add() on the old one)
+    mkh = T.find_def(tree, 'SSHConnection._match_known_hosts')
+    if not any(isinstance(n, ast.Call) and ast.unparse(n.func) == 'match_known_hosts' for n in ast.walk(mkh)):
+        raise T.Untranslatable('_match_known_hosts no longer calls match_known_hosts')
+    per_request = any(isinstance(n, ast.Assign) and any(is_self_attr(t, '_trusted_host_keys') for t in n.targets)
+                      for n in ast.walk(mkh))
+    # (2) validate_host_based_auth: the host passed to validate_host_based_user is the one _validate_host_key got
+    vha = T.find_def(tree, 'SSHServerConnection.validate_host_based_auth')
+    calls = {ast.unparse(n.func).split('.')[-1]: n for n in ast.walk(vha) if isinstance(n, ast.Call)}
+    if '_validate_host_key' not in calls or 'validate_host_based_user' not in calls or \
+            len(calls['validate_host_based_user'].args) != 3 or not calls['_validate_host_key'].args:
+        raise T.Untranslatable('validate_host_based_auth changed shape')
+    asked_validated = ast.unparse(calls['validate_host_based_user'].args[1]) == \
+        ast.unparse(calls['_validate_host_key'].args[0])
+    # (3) _ServerKbdIntAuth._process_info_response raises unless a flag set by _send_challenge (next to sending
+    #     INFO_REQUEST) is set, and clears it
+    atree = ast.parse(T.read_source('asyncssh/auth.py'))
+    pir = T.find_def(atree, '_ServerKbdIntAuth._process_info_response')
+    sch = T.find_def(atree, '_ServerKbdIntAuth._send_challenge')
+    guards = [n.test.operand.attr for n in ast.walk(pir)
+              if isinstance(n, ast.If) and isinstance(n.test, ast.UnaryOp) and isinstance(n.test.op, ast.Not) and
+              is_self_attr(n.test.operand) and any(isinstance(b, ast.Raise) for b in n.body)]
+
+    def assigns(fn: Any, attr: str, value: bool) -> bool:
+        return any(isinstance(n, ast.Assign) and any(is_self_attr(t, attr) for t in n.targets) and
+                   isinstance(n.value, ast.Constant) and n.value.value is value for n in ast.walk(fn))
+    needs_request = any(assigns(sch, g, True) and assigns(pir, g, False) for g in guards)
+    # (4) _process_userauth_request clears the key options: directly, or through a method of SSHServerConnection
+    #     that assigns both self._key_options and self._cert_options
+    srv = T.find_def(tree, 'SSHServerConnection')
+    resetters = set()
+    for fn in srv.body:
+        if isinstance(fn, (ast.FunctionDef, ast.AsyncFunctionDef)):
+            tg = {t.attr for n in fn.body if isinstance(n, ast.Assign) for t in n.targets if is_self_attr(t)}
+            if {'_key_options', '_cert_options'} <= tg and len(fn.body) <= 3:
+                resetters.add(fn.name)
+    resets = any(isinstance(n, ast.Call) and isinstance(n.func, ast.Attribute) and n.func.attr in resetters
+                 for n in ast.walk(req)) or \
+        any(isinstance(n, ast.Assign) and any(isinstance(t, ast.Attribute) and t.attr == '_key_options' for t in n.targets)
+            for n in ast.walk(req))
+    return {'trustedKeysPerRequest': per_request, 'hostUserAskedValidatedHost': asked_validated,
+            'infoResponseNeedsRequest': needs_request, 'keyOptionsResetPerRequest': resets}
 
 
 _KEYS: List[Any] = []
@@ -198,14 +261,16 @@ class AuthServer(asyncssh.SSHServer):
 
     def validate_host_public_key(self, client_host: str, client_addr: str, client_port: int, key: Any) -> bool:
         c = int(client_host[4:]) if client_host.startswith('host') and client_host[4:].isdigit() else -1
-        ok = c in self.app.get('hostkey', []) and key.public_data == keys()[c % len(keys())].public_data
+        # with app['khosts'] the trusted host keys are the server's known_client_hosts alone
+        ok = not self.app.get('khosts') and c in self.app.get('hostkey', []) and \
+            key.public_data == keys()[c % len(keys())].public_data
         self.rec['calls'].append(('validate_host_public_key', c, ok))
         return ok
 
     def validate_host_based_user(self, username: str, client_host: str, client_username: str) -> Any:
         u = int(username[4:])
         c = int(client_host[4:]) if client_host.startswith('host') and client_host[4:].isdigit() else -1
-        if client_username != 'cu%d' % c:
+        if client_username != 'cu%d' % u:
             c = -1
         self.rec['calls'].append(('validate_host_based_user', u, c))
         fut = asyncio.get_event_loop().create_future()
@@ -269,9 +334,10 @@ def build_request(u: int, method: str, c: int, sid: bytes, rng: random.Random,
         return head + S(b'password') + b'\1' + S(b'pw%d' % c) + S(b'new%d' % c), info
     if method == 'kbdint':
         return head + S(b'keyboard-interactive') + S(b'') + S(b''), info
-    if method in ('hostsig1', 'hostsig0'):
-        hkey = keys()[c % len(keys())]
-        body = head + S(b'hostbased') + S(hkey.algorithm) + S(hkey.public_data) + S(b'host%d' % c) + S(b'cu%d' % c)
+    if method.startswith('hostsig'):
+        # host c's own key is key c % 3; `hostsig1k<j>` names host c but presents (and correctly signs with) key j
+        hkey = keys()[(int(method[9:]) if method.startswith('hostsig1k') else c) % len(keys())]
+        body = head + S(b'hostbased') + S(hkey.algorithm) + S(hkey.public_data) + S(b'host%d' % c) + S(b'cu%d' % u)
         signed = S(sid) + bytes([MSG_USERAUTH_REQUEST]) + body
         if method == 'hostsig0':
             how = forced or rng.choice(HOST_BAD)
@@ -280,11 +346,11 @@ def build_request(u: int, method: str, c: int, sid: bytes, rng: random.Random,
                 sig = hkey.sign(S(bytes(len(sid))) + bytes([MSG_USERAUTH_REQUEST]) + body, hkey.algorithm)
             elif how == 'wrong-user':
                 other = S(b'user%d' % (u + 1)) + S(b'ssh-connection') + S(b'hostbased') + S(hkey.algorithm) + \
-                    S(hkey.public_data) + S(b'host%d' % c) + S(b'cu%d' % c)
+                    S(hkey.public_data) + S(b'host%d' % c) + S(b'cu%d' % u)
                 sig = hkey.sign(S(sid) + bytes([MSG_USERAUTH_REQUEST]) + other, hkey.algorithm)
             elif how == 'wrong-client-host':
                 other = head + S(b'hostbased') + S(hkey.algorithm) + S(hkey.public_data) + S(b'host%d' % (c + 1)) + \
-                    S(b'cu%d' % c)
+                    S(b'cu%d' % u)
                 sig = hkey.sign(S(sid) + bytes([MSG_USERAUTH_REQUEST]) + other, hkey.algorithm)
             elif how == 'other-key':
                 sig = keys()[(c + 1) % len(keys())].sign(signed, hkey.algorithm)
@@ -341,10 +407,21 @@ async def run_script(app: Dict[str, Any], events: List[str], seed: int, settle_e
     rng = random.Random(seed)
     rec: Dict[str, Any] = {'calls': [], 'begins': [], 'vals': [], 'auth_completed': False}
     out: Dict[str, Any] = {'events': events, 'app': app, 'seed': seed}
+    host_opts: Dict[str, Any] = dict(trust_client_host=bool(app.get('trust', True)))
+    if app.get('khosts') and app.get('hostkey'):
+        # the server's known client hosts: host c holds key c % 3
+        host_opts['known_client_hosts'] = asyncssh.import_known_hosts(''.join(
+            'host%d %s\n' % (h, keys()[h % len(keys())].export_public_key('openssh').decode().strip())
+            for h in app['hostkey']))
+
+    async def fake_getnameinfo(sockaddr: Any, flags: int = 0) -> Tuple[str, str]:
+        # the reverse lookup of the peer address is a parameter of the scenario (app['rhost'])
+        return 'host%d' % app.get('rhost', 0), str(sockaddr[1])
+    asyncio.get_event_loop().getnameinfo = fake_getnameinfo       # type: ignore
     with mock.patch.object(connmod.SSHClientConnection, 'try_next_auth', lambda self, **kw: None), \
             capture.PacketTap() as tap, capture.KeyTap() as kt:
         coro, s, hub = await pair.make_pair(server_factory=lambda: AuthServer(app, rec), connect=False,
-                                            server_opts=dict(trust_client_host=True, **ALGS), client_opts=dict(**ALGS))
+                                            server_opts=dict(**host_opts, **ALGS), client_opts=dict(**ALGS))
         task = asyncio.ensure_future(coro)
         c = None
         for _ in range(600):
@@ -410,6 +487,10 @@ async def run_script(app: Dict[str, Any], events: List[str], seed: int, settle_e
                         d = rec['vals'][k][2]
                         rec.setdefault('completed_vals', []).append(
                             d if d[0] == 'kbd' else d + ((v is True),))
+                        if d[0] == 'kbd' and isinstance(v, tuple):
+                            # the application answered with a challenge for this user (now or earlier than
+                            # every later entry of completed_vals)
+                            rec.setdefault('kbd_challenged', []).append((len(rec['completed_vals']), d[1]))
                 elif parts[0] == 'info':
                     c.send_packet(61, struct.pack('>I', 1) + S(b'r%d' % int(parts[1])))
                 elif parts[0] == 'authmsg':
@@ -437,6 +518,7 @@ async def run_script(app: Dict[str, Any], events: List[str], seed: int, settle_e
         out['lost'] = rec.get('lost')
         out['calls'] = rec['calls']
         out['completed_vals'] = rec.get('completed_vals', [])
+        out['kbd_challenged'] = rec.get('kbd_challenged', [])
         out['infos'] = infos
         for conn in (c, s):
             try:
@@ -461,6 +543,13 @@ def gen_app(rng: random.Random) -> Dict[str, Any]:
     app = _gen_app_tables(rng, users, pairs)
     if rng.random() < 0.7:
         app['hostkey'] = sorted(set(app['hostkey']) | {c for _u, c in app['hostuser']})
+    # hostbased: trusted host keys from known_client_hosts or from the application callback; the client's host name
+    # taken from the request or from the reverse lookup of its address (host `rhost`)
+    app['khosts'] = rng.random() < 0.6
+    app['trust'] = rng.random() < 0.6
+    app['rhost'] = rng.randrange(3)
+    if not app['trust'] and rng.random() < 0.7:
+        app['hostkey'] = sorted(set(app['hostkey']) | {app['rhost']})
     return app
 
 
@@ -475,20 +564,38 @@ def _gen_app_tables(rng: random.Random, users: List[int], pairs: Any) -> Dict[st
                                                      for _ in range(rng.randint(0, 3))}.items())}
 
 
+ALL_METHODS = ['none', 'password', 'password', 'pkprobe', 'pksig1', 'pksig0', 'unknown', 'pwchange',
+               'hostsig1', 'hostsig0', 'kbdint', 'kbdint']
+
+
 def gen_events(rng: random.Random, app: Dict[str, Any]) -> List[str]:
     evs: List[str] = []
     nb = nv = 0          # upper bounds on how many begin / validator futures may exist
+    # a fifth of the scripts dwell on one dialogue: hostbased requests naming different hosts with different keys,
+    # or keyboard-interactive with responses sent at every position of the dialogue
+    focus = rng.choice(['host', 'kbd']) if rng.random() < 0.22 else ''
+    methods = {'host': ['hostsig1', 'hostsig1', 'hostsig1', 'hostsig0', 'password'],
+               'kbd': ['kbdint', 'kbdint', 'kbdint', 'password', 'none']}.get(focus, ALL_METHODS)
     for _ in range(rng.randint(1, 8)):
         r = rng.random()
         if r < 0.55:
             u = rng.choice([1, 2, 3])
-            m = rng.choice(['none', 'password', 'password', 'pkprobe', 'pksig1', 'pksig0', 'unknown', 'pwchange',
-                            'hostsig1', 'hostsig0', 'kbdint', 'kbdint'])
+            m = rng.choice(methods)
             c = rng.randrange(3)
             if rng.random() < 0.5 and app.get('chpw') and m == 'pwchange':
                 u, c = rng.choice(app['chpw'])
             if rng.random() < 0.6 and app.get('hostuser') and m.startswith('hostsig'):
                 u, c = rng.choice(app['hostuser'])
+            if m == 'hostsig1' and rng.random() < (0.6 if focus else 0.45):
+                # present another host's key: one the server knows (for some host), or the resolved host's
+                pool = list(app.get('hostkey', [])) + ([app.get('rhost', 0)] if not app.get('trust', True) else [])
+                h0 = rng.choice(pool) if pool and rng.random() < 0.8 else rng.randrange(3)
+                m = 'hostsig1k%d' % (h0 % 3)
+                if rng.random() < (0.6 if focus else 0.4):
+                    # first a request naming the key's own host (what the holder of that host's key can always send)
+                    evs.append(f'req:{u}:hostsig1:{h0}')
+                    nb += 1
+                    nv += 1
             if m == 'kbdint':
                 c = 0
             if rng.random() < 0.5 and app['pw'] and m == 'password':
@@ -498,6 +605,13 @@ def gen_events(rng: random.Random, app: Dict[str, Any]) -> List[str]:
             evs.append(f'req:{u}:{m}:{c}')
             nb += 1
             nv += 1
+            if m == 'kbdint' and rng.random() < (0.5 if focus else 0.2):
+                # a response right behind the request: before the challenge step has answered (or even started)
+                if app['async'] and rng.random() < 0.7:
+                    evs.append(f'begin:{nb - 1}')
+                mine = [cc for uu, cc, a in app.get('kbd1', []) if uu == u and (a == 1 or rng.random() < 0.3)]
+                evs.append(f'info:{rng.choice(mine) if mine else rng.randrange(3)}')
+                nv += 1
         elif r < 0.70 and nb:
             evs.append(f'begin:{rng.randrange(nb)}')
         elif r < 0.86 and nv:
@@ -516,11 +630,85 @@ def gen_events(rng: random.Random, app: Dict[str, Any]) -> List[str]:
     return evs + tail[:rng.randint(0, len(tail))]
 
 
+def gen_case(rng: random.Random) -> Tuple[Dict[str, Any], List[str]]:
+    """three quarters: independent tables and events; one quarter: a hostbased or keyboard-interactive dialogue
+    whose tables and events are drawn together, so that requests are decided (not just refused at the door)"""
+    r = rng.random()
+    if r < 0.75:
+        app = gen_app(rng)
+        return app, gen_events(rng, app)
+    app = gen_app(rng)
+    evs: List[str] = []
+    nb = nv = 0
+
+    def drain() -> None:
+        # everything pending completes (completions of futures that do not exist are no-ops on both sides)
+        evs.extend([f'begin:{k}' for k in range(nb)] + [f'val:{k}' for k in range(nv)])
+    if r < 0.89:
+        hosts = [0, 1, 2]
+        app['khosts'] = rng.random() < 0.75
+        app['trust'] = rng.random() < 0.5
+        app['hostkey'] = sorted(rng.sample(hosts, rng.randint(1, 3)))
+        app['hostuser'] = sorted({(rng.choice([1, 2, 3]), rng.choice(hosts)) for _ in range(rng.randint(1, 3))})
+        app['rhost'] = rng.choice(app['hostkey']) if rng.random() < 0.8 else rng.randrange(3)
+        for _ in range(rng.randint(1, 4)):
+            u, c = rng.choice(app['hostuser']) if rng.random() < 0.8 else (rng.choice([1, 2, 3]), rng.choice(hosts))
+            q = rng.random()
+            if q < 0.4:
+                m = 'hostsig1'
+            elif q < 0.9:
+                h0 = rng.choice(app['hostkey'] + [app['rhost']])
+                m = 'hostsig1k%d' % (h0 % 3)
+                if rng.random() < 0.5:
+                    # what the holder of host h0's key can always send first: a genuine request of host h0
+                    evs.append(f'req:{u}:hostsig1:{h0}')
+                    nb += 1
+                    nv += 1
+                    if rng.random() < 0.8:
+                        drain()
+            else:
+                m = 'hostsig0'
+            evs.append(f'req:{u}:{m}:{c}')
+            nb += 1
+            nv += 1
+            if rng.random() < 0.8:
+                drain()
+    else:
+        us = [1, 2, 3]
+        app['kbd0'] = sorted({u: rng.choice([0, 1, 2, 2, 2]) for u in us}.items())
+        app['kbd1'] = sorted((u, c, rng.choice([0, 1, 1, 2])) for u in us for c in range(3) if rng.random() < 0.7)
+        for _ in range(rng.randint(1, 3)):
+            u = rng.choice(us)
+            evs.append(f'req:{u}:kbdint:0')
+            nb += 1
+            nv += 1
+            if rng.random() < 0.7:
+                evs.append(f'begin:{nb - 1}')       # (a no-op when begin_auth is synchronous)
+            for _ in range(rng.randint(0, 4)):
+                q = rng.random()
+                if q < 0.45:
+                    evs.append(f'info:{rng.randrange(3)}')
+                    nv += 1
+                elif q < 0.85:
+                    drain()
+                else:
+                    evs.append(rng.choice([f'begin:{rng.randrange(nb)}', f'val:{rng.randrange(nv)}']))
+    if rng.random() < 0.7:
+        drain()
+    return app, evs
+
+
 def model_line(app: Dict[str, Any], events: List[str], variant: str = 'new') -> str:
     f = lambda ps: ','.join(f'{a}:{b}' for a, b in ps) or '-'  # noqa: E731
     if variant == 'new':
         k1 = ','.join(f'{u}:{c}:{a}' for u, c, a in app.get('kbd1', [])) or '-'
-        return (f'run2 {1 if app["async"] else 0}{1 if app.get("peruser") else 0} {f([(u, 1) for u in app["noauth"]])} '
+        # developer aid: VERIF_C05_QUIRKS=<4 bits> runs the pre-repair model (Auth.stepQ) instead, to compare it with
+        # an unrepaired checkout; the accumulation of trusted host keys only exists with known_client_hosts
+        q = os.environ.get('VERIF_C05_QUIRKS', '')
+        if q:
+            q = 'q' + ('1' if q[0] == '1' and app.get('khosts') else '0') + q[1:]
+        return (f'run2{q} {1 if app["async"] else 0}{1 if app.get("peruser") else 0}'
+                f'{1 if app.get("trust", True) else 0}{app.get("rhost", 0)} {f([(u, 1) for u in app["noauth"]])} '
                 f'{f(app["pw"])} {f(app["key"])} {f(app.get("pwexp", []))} {f(app.get("chpw", []))} '
                 f'{f(app.get("chpwexp", []))} {f([(c, 1) for c in app.get("hostkey", [])])} {f(app.get("hostuser", []))} '
                 f'{f(app.get("kbd0", []))} {k1} ' + ' '.join(':'.join(e.split(':')[:4]) for e in events))
@@ -568,6 +756,34 @@ CORPUS = [
     ({'async': True, 'peruser': True, 'noauth': [], 'pw': [], 'key': [(1, 0), (3, 1)]},
      ['req:3:unknown:0', 'begin:0', 'req:1:pksig1:0', 'req:3:pkprobe:1', 'begin:1', 'val:0']),
     ({'async': False, 'noauth': [], 'pw': [], 'key': []}, ['info:0']),
+    # hostbased with known_client_hosts (A-C05 D2): host0's key is known, user 1 may come from host1 only; the holder
+    # of host0's key names host0 once and then host1, still signing with host0's key
+    ({'async': False, 'noauth': [], 'pw': [], 'key': [], 'khosts': True, 'hostkey': [0], 'hostuser': [(1, 1)]},
+     ['req:1:hostsig1:0', 'val:0', 'req:1:hostsig1k0:1', 'val:1']),
+    ({'async': False, 'noauth': [], 'pw': [], 'key': [], 'khosts': True, 'hostkey': [0], 'hostuser': [(1, 1)]},
+     ['req:1:hostsig1k0:1', 'val:0']),
+    ({'async': True, 'noauth': [], 'pw': [], 'key': [], 'khosts': True, 'hostkey': [0, 1], 'hostuser': [(2, 1)]},
+     ['req:2:hostsig1:0', 'begin:0', 'val:0', 'req:2:hostsig1:1', 'val:1']),              # two hosts, both genuine
+    ({'async': False, 'noauth': [], 'pw': [], 'key': [], 'khosts': True, 'hostkey': [0, 2], 'hostuser': [(1, 1), (3, 2)]},
+     ['req:3:hostsig1:2', 'req:1:hostsig1:0', 'val:0', 'req:1:hostsig1k2:1', 'val:1', 'req:1:hostsig1k0:1', 'val:2']),
+    # the client's word about its host name is not trusted (A-C05 D3): the server resolves the peer to host0, whose
+    # key the client holds; user 1 may come from host1 only and the request claims host1
+    ({'async': False, 'noauth': [], 'pw': [], 'key': [], 'khosts': True, 'trust': False, 'rhost': 0, 'hostkey': [0],
+      'hostuser': [(1, 1)]}, ['req:1:hostsig1k0:1', 'val:0']),
+    ({'async': False, 'noauth': [], 'pw': [], 'key': [], 'khosts': False, 'trust': False, 'rhost': 0, 'hostkey': [0],
+      'hostuser': [(1, 1)]}, ['req:1:hostsig1k0:1', 'val:0']),
+    ({'async': False, 'noauth': [], 'pw': [], 'key': [], 'khosts': True, 'trust': False, 'rhost': 0, 'hostkey': [0],
+      'hostuser': [(1, 0)]}, ['req:1:hostsig1k0:1', 'val:0']),                              # decided for host0: genuine
+    ({'async': True, 'noauth': [], 'pw': [], 'key': [], 'khosts': True, 'trust': False, 'rhost': 2, 'hostkey': [1, 2],
+      'hostuser': [(2, 1)]}, ['req:2:hostsig1:1', 'begin:0', 'val:0', 'req:2:hostsig1k2:1', 'val:1']),
+    # keyboard-interactive: a response while the challenge is still being prepared (A-C06 #1) - the application
+    # would refuse user 1 at the challenge step - and a second response while the first is being validated
+    ({'async': True, 'noauth': [], 'pw': [], 'key': [], 'kbd0': [(1, 0)], 'kbd1': [(1, 1, 1)]},
+     ['req:1:kbdint:0', 'begin:0', 'info:1', 'val:1', 'val:0']),
+    ({'async': False, 'noauth': [], 'pw': [], 'key': [], 'kbd0': [(2, 2)], 'kbd1': [(2, 0, 0), (2, 1, 1)]},
+     ['req:2:kbdint:0', 'info:1', 'val:1']),
+    ({'async': False, 'noauth': [], 'pw': [], 'key': [], 'kbd0': [(2, 2)], 'kbd1': [(2, 0, 0), (2, 1, 1)]},
+     ['req:2:kbdint:0', 'val:0', 'info:0', 'info:1', 'val:2', 'val:1']),
     ({'async': False, 'noauth': [], 'pw': [(1, 1)], 'key': []}, ['req:1:password:1', 'val:0', 'info:0']),
 ]
 
@@ -578,8 +794,7 @@ def correspondence(ctx: Ctx) -> CorrResult:
     rng = ctx.subrng('corr')
     cases = list(CORPUS)
     for _ in range(ctx.n(150, 2500)):
-        app = gen_app(rng)
-        cases.append((app, gen_events(rng, app)))
+        cases.append(gen_case(rng))
 
     async def run_all() -> List[Dict[str, Any]]:
         return [await run_script(app, evs, i) for i, (app, evs) in enumerate(cases)]
@@ -599,6 +814,7 @@ def correspondence(ctx: Ctx) -> CorrResult:
             res.disagreements.append(Disagreement({'app': o['app'], 'events': o['events']}, m, impl,
                                                   'correspondence:auth-script'))
     res.nontrivial = len(set((str(o['app']), tuple(o['events'])) for o in keep if len(o['events']) > 1))
+    correspondence_options(ctx, res, hist)
     res.histogram = dict(hist)
     res.samples = [{'app': o['app'], 'events': o['events'], 'model': m} for o, m in list(zip(keep, model))[:3]]
     res.rule = ('seeded application tables (3 users, passwords, keys, no-auth users, sync/async begin_auth) and event '
@@ -607,39 +823,153 @@ def correspondence(ctx: Ctx) -> CorrResult:
     return res
 
 
-def granted(o: Dict[str, Any], u: int) -> bool:
-    """the harness's own record: a successful check for u on this connection"""
-    if u in o['app']['noauth']:
-        return True
-    hostsigned = set()
+def host_requests(o: Dict[str, Any]) -> List[Tuple[int, int, int]]:
+    """(user, client host named, key presented) of the correctly signed hostbased requests of a script"""
+    out = []
     for ev in o['events']:
         p = ev.split(':')
-        if p[0] == 'req' and p[2] == 'hostsig1':
-            hostsigned.add((int(p[1]), int(p[3])))
-    for kind, uu, c, ok in o['completed_vals']:
+        if p[0] == 'req' and p[2].startswith('hostsig1'):
+            c = int(p[3])
+            out.append((int(p[1]), c, (int(p[2][9:]) if p[2].startswith('hostsig1k') else c) % 3))
+    return out
+
+
+def host_credential(o: Dict[str, Any], u: int, h: int) -> Optional[str]:
+    """Judged from the property text: may an acceptance of (user u, client host h) by the application count as u's
+    credential on this connection?  Only if some request of u was signed by a key the server trusts FOR HOST h, and h
+    is the host that request is to be decided for: the host it names when the server trusts the client's word, else
+    the reverse lookup of the client's address.  Returns None if so, else the reason."""
+    app = o['app']
+    trusted = lambda host, key: host in app.get('hostkey', []) and key == host % 3  # noqa: E731
+    reqs = [(uu, c, k) for uu, c, k in host_requests(o) if uu == u]
+    eff = (lambda c: c) if app.get('trust', True) else (lambda c: app.get('rhost', 0))  # noqa: E731
+    if any(eff(c) == h and trusted(h, k) for _u, c, k in reqs):
+        return None
+    if any(eff(c) == h for _u, c, k in reqs):
+        # a request to be decided for host h, signed with a key that is not h's (trusted for some other host at best)
+        return 'hostbased:key-of-another-host-accepted'
+    if any(trusted(eff(c), k) for _u, c, k in reqs):
+        # the key was fine for the host the request is to be decided for, but the application was asked about h
+        return 'hostbased:application-asked-about-unverified-host'
+    return 'hostbased'
+
+
+def denial(o: Dict[str, Any], u: int) -> Optional[str]:
+    """the harness's own record: None if a credential check for u succeeded on this connection (or u needs none),
+    else a classifier of what the server accepted instead"""
+    if u in o['app']['noauth']:
+        return None
+    reason = ''
+    challenged = o.get('kbd_challenged', [])
+    for i, (kind, uu, c, ok) in enumerate(o['completed_vals']):
         if uu == u and ok and kind == 'pw' and (u, c) in [tuple(x) for x in o['app']['pw']]:
-            return True
+            return None
         if uu == u and ok and kind == 'chpw' and (u, c) in [tuple(x) for x in o['app'].get('chpw', [])]:
-            return True
+            return None
         if uu == u and ok and kind == 'kbd':
-            return True       # the application itself answered True for this user
-        if uu == u and ok and kind == 'host' and (u, c) in hostsigned and c in o['app'].get('hostkey', []) and \
-                (u, c) in [tuple(x) for x in o['app'].get('hostuser', [])]:
-            return True
+            # the application itself answered True for this user: to its own challenge step (c is None), or to
+            # responses - which are a credential only as the answer to a challenge the application issued for u
+            if c is None or any(j <= i and cu == u for j, cu in challenged):
+                return None
+            reason = reason or 'kbdint-response-accepted-without-challenge'
+        if uu == u and ok and kind == 'host' and (u, c) in [tuple(x) for x in o['app'].get('hostuser', [])]:
+            why = host_credential(o, u, c)
+            if why is None:
+                return None
+            reason = reason or why
     # key: an authorised key for u AND a request signed over this session id for u with that key
     signed_ok = set()
-    i = 0
     for ev in o['events']:
         p = ev.split(':')
-        if p[0] == 'req':
-            if p[2] == 'pksig1':
-                signed_ok.add((int(p[1]), int(p[3]) % 3))
-            i += 1
+        if p[0] == 'req' and p[2] == 'pksig1':
+            signed_ok.add((int(p[1]), int(p[3]) % 3))
     truly = set(tuple(x) for x in o['app']['key'])
     for kind, uu, k, ok in o['completed_vals']:
         if kind == 'key' and uu == u and ok and (u, k) in signed_ok and (u, k) in truly:
-            return True
-    return False
+            return None
+    return reason
+
+
+def granted(o: Dict[str, Any], u: int) -> bool:
+    return denial(o, u) is None
+
+
+def run_options(scripts: List[List[str]]) -> List[Dict[str, Any]]:
+    async def go() -> List[Dict[str, Any]]:
+        return [await X.run_options_script(t) for t in scripts]
+    return [o for o in pair.run(go(), timeout=1200, sync_executor=True) if 'skip' not in o]
+
+
+def correspondence_options(ctx: Ctx, res: CorrResult, hist: Hist) -> None:
+    """whose key options are in force (Auth.St.keyOpts) after scripts of probes, signatures and passwords against a
+    real server whose authorized_keys entries carry options"""
+    outs = [o for o in run_options(X.options_scripts(ctx.subrng('corr-options'), ctx.n(40, 600)))
+            if X.options_model_line(o['tokens'])]
+    model = ctx.model(DRIVER, [X.options_model_line(o['tokens']) for o in outs]) if outs else []
+    for o, m in zip(outs, model):
+        res.cases += 1
+        impl = X.options_impl_line(o)
+        hist.hit('options:' + impl.split(' ')[-1])
+        if m != impl:
+            res.disagreements.append(Disagreement({'kind': 'options', 'tokens': o['tokens']}, m, impl,
+                                                  'correspondence:key-options'))
+    res.nontrivial += len(set(tuple(o['tokens']) for o in outs if len(o['tokens']) > 1))
+
+
+def oracle_options(ctx: Ctx, res: OracleResult, hist: Hist, extra: Optional[List[List[str]]] = None) -> None:
+    """the restrictions attached to the accepted credential are the ones enforced afterwards"""
+    scripts = (extra or []) + X.options_scripts(ctx.subrng('oracle-options'), ctx.n(60, 1500))
+    for o in run_options(scripts):
+        res.evaluations += 1
+        exp = X.options_expected(o['tokens'])
+        hist.hit('options:' + ('not-authenticated' if exp is None else 'by-' + exp['by'].replace(' ', '')))
+        key = {'kind': 'options', 'tokens': o['tokens']}
+        if (exp is not None) != bool(o['complete']):
+            res.failures.append(Failure(
+                'authenticated-without-credential-check:options-script' if o['complete'] else
+                'valid-credential-not-admitted:options-script',
+                f'script {o["tokens"]}: server authenticated={o["complete"]}, replies {o["replies"]}', key))
+            continue
+        if exp is None:
+            continue
+        got = {k: o[k] for k in ('command', 'env', 'pty', 'portfwd')}
+        if got != {k: exp[k] for k in got}:
+            res.failures.append(Failure(
+                'restrictions-of-another-credential-enforced:stale-key-or-certificate-options',
+                f'script {o["tokens"]}: the session was authenticated by {exp["by"]} but runs under key options '
+                f'{got} (those of that credential are { {k: exp[k] for k in got} })', key))
+        gotc = {k: o[k] for k in ('cert_command', 'cert_pty')}
+        if gotc != {k: exp[k] for k in gotc}:
+            res.failures.append(Failure(
+                'restrictions-of-another-credential-enforced:stale-key-or-certificate-options',
+                f'script {o["tokens"]}: the session was authenticated by {exp["by"]} but runs under certificate '
+                f'options {gotc} of a certificate that was only probed', key))
+    res.nontrivial += len(set(tuple(t) for t in scripts if len(t) > 1))
+
+
+def oracle_keysfile(ctx: Ctx, res: OracleResult, hist: Hist) -> None:
+    """a server whose users' keys come from `AuthorizedKeysFile dir/%u dir/%u.2`: a valid password or key is
+    admitted whatever the state of that user's files; an unlisted key is not"""
+    import tempfile
+    tmp = tempfile.mkdtemp(prefix='c05keys-', dir=ctx.tmpdir())
+    cfg = X.keysfile_setup(tmp)
+
+    async def go() -> List[Dict[str, Any]]:
+        return [await X.run_keysfile_case(cfg, u, cred) for u, cred, _e, _d in X.KEYSFILE_CASES]
+    for (user, cred, expect, desc), o in zip(X.KEYSFILE_CASES, pair.run(go(), timeout=600, sync_executor=True)):
+        res.evaluations += 1
+        hist.hit(f'keysfile:{cred}:{"admitted" if o["admitted"] else "refused"}')
+        key = {'kind': 'keysfile', 'user': user, 'credential': cred}
+        if expect and not o['admitted']:
+            res.failures.append(Failure(
+                'valid-credential-not-admitted:authorized-keys-file-missing-or-without-keys',
+                f'user {user!r} ({desc}) presenting a valid {cred} was not admitted: {o["detail"]}; the server '
+                f'connection ended with {o.get("server_lost")}, application callbacks {o["calls"]}', key))
+        if o['admitted'] and not expect:
+            res.failures.append(Failure(
+                'authenticated-without-credential-check:authorized-keys-file',
+                f'user {user!r} ({desc}) presenting {cred} was admitted', key))
+    res.nontrivial += len(X.KEYSFILE_CASES)
 
 
 def oracle(ctx: Ctx) -> OracleResult:
@@ -651,10 +981,10 @@ def oracle(ctx: Ctx) -> OracleResult:
         if isinstance(s, dict) and 'events' in s:
             cases.append((s['app'], s['events']))
     for _ in range(ctx.n(250, 4000)):
-        app = gen_app(rng)
+        app, evs = gen_case(rng)
         if rng.random() < 0.5:
             app['async'] = True
-        cases.append((app, gen_events(rng, app)))
+        cases.append((app, evs))
 
     async def run_all() -> List[Dict[str, Any]]:
         outs = []
@@ -673,12 +1003,20 @@ def oracle(ctx: Ctx) -> OracleResult:
         if u is not None and not granted(o, u):
             checked = sorted(set(c[1] for c in o['completed_vals'] if c[3]))
             sig = 'authenticated-without-credential-check'
-            if checked and u not in checked:
+            if denial(o, u):
+                sig += ':' + str(denial(o, u))
+            elif checked and u not in checked:
                 sig += ':user-switched-while-validator-pending' if any(e.startswith('req') for e in o['events'][1:]) else ''
             res.failures.append(Failure(sig, f'server reports authentication as user{u}; successful checks were for '
                                              f'users {checked}; events {o["events"]} {key["bad_signature_kinds"]}', key))
     res.nontrivial = len(set((str(o['app']), tuple(o['events'])) for o in outs if 'skip' not in o))
     oracle_certs(ctx, res, hist)
+    oracle_options(ctx, res, hist, [s['tokens'] for s in ctx.suspects if isinstance(s, dict) and 'tokens' in s])
+    oracle_keysfile(ctx, res, hist)
+    # one failure of every root cause first (the runner prints the first few)
+    seen: set = set()
+    firsts = [f for f in res.failures if not (f.signature in seen or seen.add(f.signature))]
+    res.failures = firsts + [f for f in res.failures if all(f is not g for g in firsts)]
     res.histogram = dict(hist)
     res.samples = [{'app': o['app'], 'events': o['events'], 'complete': o.get('complete')} for o in outs[:3]]
     res.rule = 'as the correspondence, a third of the scripts fired without settling between events (true pipelining)'
@@ -757,7 +1095,18 @@ def oracle_certs(ctx: Ctx, res: OracleResult, hist: Hist) -> None:
 
 def replay(ctx: Ctx, rep: Dict[str, Any]) -> List[Failure]:
     r = rep.get('replay', rep)
+    if r.get('kind') in ('options', 'keysfile', 'cert'):
+        res, hist = OracleResult(), Hist()
+        if r['kind'] == 'options':
+            oracle_options(ctx, res, hist, [r['tokens']])
+            return [f for f in res.failures if f.replay.get('tokens') == r['tokens']]
+        if r['kind'] == 'keysfile':
+            oracle_keysfile(ctx, res, hist)
+            return [f for f in res.failures if (f.replay['user'], f.replay['credential']) == (r['user'], r['credential'])]
+        oracle_certs(ctx, res, hist)
+        return [f for f in res.failures if f.replay.get('label') == r.get('label') and f.replay.get('options') == r.get('options')]
     o = pair.run(run_script(r['app'], r['events'], r.get('seed', 0)), sync_executor=True)
     if o.get('complete') is not None and not granted(o, o['complete']):
-        return [Failure('authenticated-without-credential-check', str(o['complete']), r)]
+        return [Failure('authenticated-without-credential-check' + (':' + denial(o, o['complete']) if denial(o, o['complete']) else ''),
+                        str(o['complete']), r)]
     return []
